@@ -59,10 +59,11 @@ class BaseFiles(Generic[Interface]):
             os.path.join(self.directory, os.path.join(*path.split("/")))
         )
 
-        if path == "/":
+        if path.endswith("/"):
             abspath += "/"
 
-        if os.path.relpath(abspath, self.directory).startswith(".."):
+        relpath = os.path.relpath(abspath, self.directory)
+        if relpath == os.pardir or relpath.startswith(os.pardir + os.sep):
             return None
 
         return abspath
